@@ -1,7 +1,505 @@
-/- Model `Merge` (driver token `merge`) — stub, to be filled in. -/
+/-
+  Model of the data flow into a starting stage (C16):
+
+  * `persistence/sqlite/queries.py :: get_merged_ancestor_outputs`  — ancestors by BFS over
+    `requisite_stage_ref_ids`, a Kahn pass over Python `set`s (so the relative order of unrelated
+    ancestors is whatever the set iteration gives: the model takes the order actually used as an
+    explicit parameter and only requires it to be a linear extension), then a left-to-right merge:
+    list/list = append the items not yet present, everything else = overwrite;
+  * `reducers.py` — every built-in reducer and `apply_output_reducers`;
+  * `handlers/start_stage/planner.py :: _plan_stage` — ancestors, then reducers over the DIRECT
+    upstream branch outputs, then the stage's own context (keys named by a reducer are skipped);
+  * the jump re-arm (`handlers/jump_to_stage/reset.py :: reset_stage_for_retry`) as far as the
+    stage context is concerned, in two variants: `legacy` (the code before the F17 repair: the planned
+    context simply stays) and `fixed` (the planner records which keys were hydrated, the re-arm
+    drops / restores them).
+
+  JSON values are restricted to: atoms `None | int | str`, lists of atoms, dicts str -> atom.
+  (No floats, no bools, no nesting; Python's `==` on these atoms is structural equality.)
+  A dict is an association list in insertion order; lookups take the first entry of a key.
+-/
+import Stab.Model.Basic
+
 namespace Stab.Merge
 
-/-- driver entry: the rest of the request line after the model token -/
-def drive (_rest : String) : String := "unimplemented"
+inductive Atom where
+  | none
+  | int (i : Int)
+  | str (s : String)
+  deriving DecidableEq, Repr, Inhabited
+
+inductive Value where
+  | atom (a : Atom)
+  | list (l : List Atom)
+  | dict (d : List (String × Atom))
+  deriving DecidableEq, Repr, Inhabited
+
+/-- `isinstance(v, list)` -/
+def Value.isList : Value → Bool
+  | .list _ => true
+  | _ => false
+
+abbrev Dict (α : Type) := List (String × α)
+abbrev Outs := Dict Value
+
+/-- `d.get(k)` (first entry) -/
+def get? {α} : Dict α → String → Option α
+  | [], _ => none
+  | (k', v) :: m, k => if k' = k then some v else get? m k
+
+/-- `d[k] = v` (an existing key keeps its position) -/
+def set {α} : Dict α → String → α → Dict α
+  | [], k, v => [(k, v)]
+  | (k', v') :: m, k, v => if k' = k then (k, v) :: m else (k', v') :: set m k v
+
+def hasKey {α} (d : Dict α) (k : String) : Bool := (get? d k).isSome
+
+/-- `d.pop(k, None)` (all entries of the key) -/
+def erase {α} (d : Dict α) (k : String) : Dict α := d.filter (fun e => e.1 ≠ k)
+
+/-- `for item in new: if item not in existing: existing.append(item)` -/
+def appendNew (e : List Atom) : List Atom → List Atom
+  | [] => e
+  | x :: xs => appendNew (if x ∈ e then e else e ++ [x]) xs
+
+/-- one assignment of the merge loops: list onto list accumulates, anything else overwrites -/
+def combine (old : Option Value) (v : Value) : Value :=
+  match old, v with
+  | some (.list e), .list n => .list (appendNew e n)
+  | _, _ => v
+
+/-- `for key, value in outputs.items(): ...` of `get_merged_ancestor_outputs` / `_plan_stage` -/
+def mergeOuts (acc : Outs) (outs : Outs) : Outs :=
+  outs.foldl (fun m e => set m e.1 (combine (get? m e.1) e.2)) acc
+
+/-- the merge loop over `sorted_ancestors` -/
+def mergeFrom (O : Nat → Outs) (acc : Outs) (order : List Nat) : Outs :=
+  order.foldl (fun m a => mergeOuts m (O a)) acc
+
+/-- `get_merged_ancestor_outputs`, given the order the Kahn pass produced -/
+def mergeOrder (O : Nat → Outs) (order : List Nat) : Outs := mergeFrom O [] order
+
+/-! ### reducers (`reducers.py`) -/
+
+inductive RErr where
+  | unknown        -- `ValueError("Unknown output reducer ...")`
+  | type           -- `TypeError`
+  | value          -- `ValueError` (max/min of an empty sequence)
+  | unsupported    -- outside the modelled value space (a dict inside a list, comparing lists/dicts)
+  deriving DecidableEq, Repr
+
+def RErr.name : RErr → String
+  | .unknown => "ValueError" | .type => "TypeError" | .value => "ValueError" | .unsupported => "unsupported"
+
+def Value.isNone : Value → Bool
+  | .atom .none => true
+  | _ => false
+def Value.isDict : Value → Bool
+  | .dict _ => true
+  | _ => false
+def Value.isAtom : Value → Bool
+  | .atom _ => true
+  | _ => false
+def Value.isInt : Value → Bool
+  | .atom (.int _) => true
+  | _ => false
+def Value.isStr : Value → Bool
+  | .atom (.str _) => true
+  | _ => false
+def Value.int? : Value → Option Int
+  | .atom (.int i) => some i
+  | _ => none
+def Value.str? : Value → Option String
+  | .atom (.str s) => some s
+  | _ => none
+
+/-- what a value contributes to `_collect`: a list is extended, anything else appended -/
+def collectItems : Value → List Atom
+  | .list l => l
+  | .atom a => [a]
+  | .dict _ => []
+
+/-- `_collect` (also registered as `append`) -/
+def rCollect (vs : List Value) : Except RErr Value :=
+  if vs.any Value.isDict then .error .unsupported else .ok (.list (vs.flatMap collectItems))
+
+/-- what a value contributes to `_extend`: like `_collect` but `None` is dropped -/
+def extendItems : Value → List Atom
+  | .list l => l
+  | .atom .none => []
+  | .atom a => [a]
+  | .dict _ => []
+
+def rExtend (vs : List Value) : Except RErr Value :=
+  if vs.any Value.isDict then .error .unsupported else .ok (.list (vs.flatMap extendItems))
+
+/-- `_sum`: `total = 0; total = total + v` for every `v is not None` -/
+def rSum (vs : List Value) : Except RErr Value :=
+  if vs.all (fun v => v.isNone || v.isInt) then .ok (.atom (.int ((vs.filterMap Value.int?).foldr (· + ·) 0)))
+  else .error .type
+
+def optFold {α} (f : α → α → α) : List α → Option α
+  | [] => none
+  | x :: xs => match optFold f xs with
+    | none => some x
+    | some y => some (f x y)
+
+def smax (a b : String) : String := if a < b then b else a
+def smin (a b : String) : String := if b < a then b else a
+
+/-- comparing at least two non-None values: ints among themselves, strs among themselves; a mix of int and
+    str raises `TypeError` at the first comparison across the types -/
+def extBody (fi : Int → Int → Int) (fs : String → String → String) (xs : List Value) : Except RErr Value :=
+  if xs.all Value.isInt then
+    match optFold fi (xs.filterMap Value.int?) with
+    | some m => .ok (.atom (.int m))
+    | none => .error .value
+  else if xs.all Value.isStr then
+    match optFold fs (xs.filterMap Value.str?) with
+    | some m => .ok (.atom (.str m))
+    | none => .error .value
+  else if xs.all Value.isAtom then .error .type
+  else .error .unsupported
+
+/-- `max(v for v in values if v is not None)` / `min(...)` -/
+def rExtremum (fi : Int → Int → Int) (fs : String → String → String) (vs : List Value) : Except RErr Value :=
+  match vs.filter (fun v => !v.isNone) with
+  | [] => .error .value
+  | [x] => .ok x
+  | xs => extBody fi fs xs
+
+def rMax := rExtremum max smax
+def rMin := rExtremum min smin
+
+/-- `out.update(v)` -/
+def update {α} (acc : Dict α) (d : Dict α) : Dict α := d.foldl (fun a e => set a e.1 e.2) acc
+
+/-- one step of `_merge`: `if isinstance(v, dict): out.update(v)` -/
+def mergeStep (acc : Dict Atom) : Value → Dict Atom
+  | .dict d => update acc d
+  | _ => acc
+
+/-- `_merge`: shallow-merge the dict values, ignore everything else -/
+def rMergeDict (vs : List Value) : Dict Atom := vs.foldl mergeStep []
+
+def rMerge (vs : List Value) : Except RErr Value := .ok (.dict (rMergeDict vs))
+
+/-- `values[0] if values else None` -/
+def rFirst (vs : List Value) : Except RErr Value := .ok (vs.head?.getD (.atom .none))
+/-- `values[-1] if values else None` -/
+def rLast (vs : List Value) : Except RErr Value := .ok (vs.getLast?.getD (.atom .none))
+
+/-- `_BUILTIN_REDUCERS` -/
+def builtin : String → Option (List Value → Except RErr Value)
+  | "collect" => some rCollect
+  | "append" => some rCollect
+  | "extend" => some rExtend
+  | "sum" => some rSum
+  | "max" => some rMax
+  | "min" => some rMin
+  | "merge" => some rMerge
+  | "first" => some rFirst
+  | "last" => some rLast
+  | _ => none
+
+def builtinNames : List String := ["collect", "append", "extend", "sum", "max", "min", "merge", "first", "last"]
+
+/-- `[outputs[key] for outputs in branch_outputs if key in outputs]` -/
+def branchValues (branches : List Outs) (k : String) : List Value := branches.filterMap (fun o => get? o k)
+
+/-- the loop of `apply_output_reducers` over `reducers.items()`, `res` = `result` so far -/
+def applyFrom (branches : List Outs) : Outs → Dict String → Except RErr Outs
+  | res, [] => .ok res
+  | res, e :: rest =>
+    match builtin e.2 with
+    | none => .error .unknown
+    | some r =>
+      if (branchValues branches e.1).isEmpty then applyFrom branches res rest
+      else match r (branchValues branches e.1) with
+        | .ok v => applyFrom branches (set res e.1 v) rest
+        | .error x => .error x
+
+/-- `apply_output_reducers` -/
+def applyReducers (reducers : Dict String) (branches : List Outs) : Except RErr Outs :=
+  applyFrom branches [] reducers
+
+/-! ### `_plan_stage` -/
+
+/-- the loop over `stage.context.items()`: reducer keys are skipped, the rest merges like an ancestor -/
+def planCore (rk : List String) (anc : Outs) (own : Outs) : Outs :=
+  mergeOuts anc (own.filter (fun e => !rk.contains e.1))
+
+/-- `_plan_stage` up to `stage.context = merged`: `anc` = merged ancestor outputs, `branches` = the
+    outputs of the direct upstream stages in the order `get_upstream_stages` returns them -/
+def planMerge (reducers : Dict String) (anc : Outs) (branches : List Outs) (own : Outs) : Except RErr Outs :=
+  if reducers.isEmpty then .ok (planCore [] anc own)
+  else match applyReducers reducers branches with
+    | .ok red => .ok (planCore (reducers.map (·.1)) (update anc red) own)
+    | .error x => .error x
+
+/-! ### the stage context across jump-loop iterations (F17)
+
+`ctx` is the stage's stored context without the engine's reserved `_…` keys; the two reserved keys
+the repaired planner writes are separate fields. -/
+
+structure SCtx where
+  ctx : Outs
+  hydrated : List String := []              -- context["_hydrated_keys"]
+  ownLists : Dict (List Atom) := []         -- context["_hydrated_own_lists"]
+  deriving Repr, DecidableEq
+
+inductive Variant where
+  | legacy | fixed
+  deriving DecidableEq, Repr
+
+/-- own list values that are about to be merged onto an ancestor list (first plan only) -/
+def ownListsOf (rk : List String) (anc : Outs) (old : Dict (List Atom)) (own : Outs) : Dict (List Atom) :=
+  own.foldl (fun acc e =>
+    match e.2, get? anc e.1 with
+    | .list l, some (.list _) => if rk.contains e.1 || hasKey acc e.1 then acc else acc ++ [(e.1, l)]
+    | _, _ => acc) old
+
+/-- `_plan_stage`: what is stored as the stage's context (and handed to its tasks).
+    `anc` already contains the reducer results (`ancestor_outputs.update(apply_output_reducers(..))`). -/
+def planCtx (var : Variant) (rk : List String) (anc : Outs) (s : SCtx) : SCtx :=
+  match var with
+  | .legacy => { s with ctx := planCore rk anc s.ctx }
+  | .fixed =>
+    { ctx := planCore rk anc s.ctx
+      hydrated := s.hydrated ++ ((anc.map (·.1)).filter (fun k => !hasKey s.ctx k && !s.hydrated.contains k))
+      ownLists := ownListsOf rk anc s.ownLists s.ctx }
+
+/-- `reset_stage_for_retry`, context part -/
+def rearm (var : Variant) (s : SCtx) : SCtx :=
+  match var with
+  | .legacy => s
+  | .fixed =>
+    let dropped := s.hydrated.foldl (fun c k => erase c k) s.ctx
+    -- `for key, own_list in own_lists.items(): ctx[key] = own_list` (a dict: keys are unique, order immaterial)
+    { ctx := s.ownLists.foldr (fun e c => set c e.1 (.list e.2)) dropped }
+
+/-- what the stage's task is handed in each iteration of a jump loop; `iters` = per iteration the
+    merged ancestor outputs (reducers applied) at the moment the stage is planned -/
+def loopSeen (var : Variant) (rk : List String) : SCtx → List Outs → List Outs
+  | _, [] => []
+  | s, anc :: rest =>
+    let p := planCtx var rk anc s
+    p.ctx :: loopSeen var rk (rearm var p) rest
+
+/-! ### ancestors and linear extensions
+
+Stage refs are `Nat`; `R a` = requisites of `a`.  The executable functions assume the graph is
+topologically numbered (`∀ b ∈ R a, b < a`), which the harness guarantees by construction. -/
+
+/-- ancestors of `s`, ascending: candidates `n-1 … 0`, a candidate is an ancestor iff it is a requisite
+    of `s` or of an ancestor already found (all of which are larger). -/
+def ancDown (R : Nat → List Nat) (s : Nat) : Nat → List Nat → List Nat
+  | 0, acc => acc
+  | n + 1, acc =>
+    if (s :: acc).any (fun c => (R c).contains n) then ancDown R s n (n :: acc) else ancDown R s n acc
+
+def ancestors (R : Nat → List Nat) (s : Nat) : List Nat := ancDown R s s []
+
+/-- every requisite of every member occurs earlier in the list -/
+def reqsBefore (R : Nat → List Nat) : List Nat → List Nat → Bool
+  | _, [] => true
+  | seen, a :: rest => (R a).all (fun b => seen.contains b) && reqsBefore R (seen ++ [a]) rest
+
+/-- `order` is a linear extension of the ancestor sub-DAG of `s` (decidable form, no search):
+    no repetition, `s` not in it, contains `R s`, closed under `R` with requisites first, and every
+    member is needed by `s` or by another member. -/
+def isLinExt (R : Nat → List Nat) (s : Nat) (order : List Nat) : Bool :=
+  order.Nodup && !order.contains s && (R s).all (fun b => order.contains b)
+  && reqsBefore R [] order
+  && order.all (fun a => (s :: order).any (fun c => (R c).contains a))
+
+def insertAll {α} (x : α) : List α → List (List α)
+  | [] => [[x]]
+  | y :: ys => (x :: y :: ys) :: (insertAll x ys).map (y :: ·)
+
+def perms {α} : List α → List (List α)
+  | [] => [[]]
+  | x :: xs => (perms xs).flatMap (insertAll x)
+
+def linExts (R : Nat → List Nat) (s : Nat) : List (List Nat) :=
+  (perms (ancestors R s)).filter (isLinExt R s)
+
+/-! ### executable graph carrier and text protocol -/
+
+structure Node where
+  ref : Nat
+  reqs : List Nat
+  outs : Outs
+  deriving Repr
+
+abbrev Graph := List Node
+
+def Graph.R (g : Graph) (a : Nat) : List Nat :=
+  match g.find? (·.ref == a) with
+  | some n => n.reqs
+  | none => []
+
+def Graph.O (g : Graph) (a : Nat) : Outs :=
+  match g.find? (·.ref == a) with
+  | some n => n.outs
+  | none => []
+
+def Graph.topoNumbered (g : Graph) : Bool := g.all (fun n => n.reqs.all (· < n.ref))
+def Graph.known (g : Graph) : Bool := g.all (fun n => n.reqs.all (fun b => g.any (·.ref == b)))
+def Graph.distinct (g : Graph) : Bool := (g.map (·.ref)).Nodup
+def Graph.dictOuts (g : Graph) : Bool := g.all (fun n => (n.outs.map (·.1)).Nodup)
+
+/-! value syntax: `n` None, `i<int>`, `s<chars>`, `L[:atom]*` list, `D[:key:atom]*` dict -/
+
+def parseAtom (t : String) : Option Atom :=
+  if t == "n" then some .none
+  else if t.startsWith "i" then (Parse.int? (t.drop 1).toString).map .int
+  else if t.startsWith "s" then some (.str (t.drop 1).toString)
+  else none
+
+def parsePairs : List String → Option (List (String × Atom))
+  | [] => some []
+  | k :: a :: rest => do
+    let x ← parseAtom a
+    let r ← parsePairs rest
+    pure ((k, x) :: r)
+  | _ => none
+
+def parseValue (t : String) : Option Value :=
+  match t.splitOn ":" with
+  | "L" :: items => (Parse.all? parseAtom items).map .list
+  | "D" :: kvs => (parsePairs kvs).map .dict
+  | [a] => (parseAtom a).map .atom
+  | _ => none
+
+def parseEntry (t : String) : Option (String × Value) :=
+  match t.splitOn "=" with
+  | [k, v] => (parseValue v).map (fun x => (k, x))
+  | _ => none
+
+/-- `k=v,k=v` or `-` -/
+def parseOuts (t : String) : Option Outs :=
+  if t == "-" then some [] else Parse.all? parseEntry (t.splitOn ",")
+
+def parseNats (t : String) : Option (List Nat) :=
+  if t == "-" then some [] else Parse.all? Parse.nat? (t.splitOn ".")
+
+/-- `ref;reqs;outs` -/
+def parseNode (t : String) : Option Node :=
+  match t.splitOn ";" with
+  | [r, q, o] => do pure { ref := (← Parse.nat? r), reqs := (← parseNats q), outs := (← parseOuts o) }
+  | _ => none
+
+def parseGraph (t : String) : Option Graph :=
+  if t == "-" then some [] else Parse.all? parseNode (t.splitOn "|")
+
+def showAtom : Atom → String
+  | .none => "n"
+  | .int i => s!"i{i}"
+  | .str s => "s" ++ s
+
+def insSorted {α} (e : String × α) : List (String × α) → List (String × α)
+  | [] => [e]
+  | x :: xs => if e.1 < x.1 then e :: x :: xs else x :: insSorted e xs
+
+def sortKeys {α} (d : List (String × α)) : List (String × α) := d.foldr insSorted []
+
+def showValue : Value → String
+  | .atom a => showAtom a
+  | .list l => ":".intercalate ("L" :: l.map showAtom)
+  | .dict d => ":".intercalate ("D" :: (sortKeys d).flatMap (fun e => [e.1, showAtom e.2]))
+
+/-- canonical: keys sorted (a Python dict compares without order) -/
+def showOuts (o : Outs) : String :=
+  if o.isEmpty then "-" else ",".intercalate ((sortKeys o).map (fun e => e.1 ++ "=" ++ showValue e.2))
+
+def showRes : Except RErr Value → String
+  | .ok v => showValue v
+  | .error e => "error:" ++ e.name
+
+def showResOuts : Except RErr Outs → String
+  | .ok o => showOuts o
+  | .error e => "error:" ++ e.name
+
+def showNatsDot (l : List Nat) : String := if l.isEmpty then "-" else ".".intercalate (l.map toString)
+
+/-- `k=name,k=name` reducers in dict order, `-` for none -/
+def parseReducers (t : String) : Option (Dict String) :=
+  if t == "-" then some [] else
+  Parse.all? (fun e => match e.splitOn "=" with
+    | [k, n] => some (k, n)
+    | _ => none) (t.splitOn ",")
+
+def parseKeys (t : String) : Option (List String) :=
+  if t == "-" then some [] else some (t.splitOn ",")
+
+def graphOk (g : Graph) : Bool := g.topoNumbered && g.known && g.distinct && g.dictOuts
+
+/-- requests:
+  * `anc <s> <graph>`                          ancestors, ascending
+  * `linext <s> <order> <graph>`               is `order` a linear extension of the ancestors of `s`
+  * `merged <s> <order> <graph>`               `get_merged_ancestor_outputs` for that order
+  * `admits <s> <result> <graph>`              is `result` the merge of SOME linear extension
+  * `count <s> <graph>`                        number of linear extensions
+  * `reduce <name> <v1|v2|...>`                one reducer on a list of values (`-` = empty)
+  * `plan <reducers> <anc> <b1|b2|..> <own>`   `_plan_stage` merge
+  * `stageplan <s> <order> <bo> <reducers> <own> <graph>`  `_plan_stage` of stage `s`: ancestors merged in
+       `order`, reducers over the direct upstream stages in the order `bo`, then `own`
+  * `loop <legacy|fixed> <rk> <own> <anc1|anc2|..>`  contexts seen over jump-loop iterations
+-/
+def drive (rest : String) : String :=
+  match rest.splitOn " " with
+  | ["anc", s, g] =>
+    match Parse.nat? s, parseGraph g with
+    | some s, some g => if graphOk g then showNatsDot (ancestors g.R s) else "bad-graph"
+    | _, _ => "bad-request"
+  | ["linext", s, o, g] =>
+    match Parse.nat? s, parseNats o, parseGraph g with
+    | some s, some o, some g => if graphOk g then toString (isLinExt g.R s o) else "bad-graph"
+    | _, _, _ => "bad-request"
+  | ["merged", s, o, g] =>
+    match Parse.nat? s, parseNats o, parseGraph g with
+    | some s, some o, some g =>
+      if !graphOk g then "bad-graph"
+      else if !g.any (·.ref == s) then "-"
+      else if isLinExt g.R s o then showOuts (mergeOrder g.O o) else "not-linext"
+    | _, _, _ => "bad-request"
+  | ["admits", s, r, g] =>
+    match Parse.nat? s, parseOuts r, parseGraph g with
+    | some s, some _, some g =>
+      if !graphOk g then "bad-graph"
+      else toString ((linExts g.R s).any (fun o => showOuts (mergeOrder g.O o) == r))
+    | _, _, _ => "bad-request"
+  | ["count", s, g] =>
+    match Parse.nat? s, parseGraph g with
+    | some s, some g => if graphOk g then toString (linExts g.R s).length else "bad-graph"
+    | _, _ => "bad-request"
+  | ["reduce", name, vs] =>
+    match (if vs == "-" then some [] else Parse.all? parseValue (vs.splitOn "|")) with
+    | some vs =>
+      match builtin name with
+      | some r => showRes (r vs)
+      | none => "error:" ++ RErr.unknown.name
+    | none => "bad-request"
+  | ["plan", rs, anc, bs, own] =>
+    match parseReducers rs, parseOuts anc,
+          (if bs == "-" then some [] else Parse.all? parseOuts (bs.splitOn "|")), parseOuts own with
+    | some rs, some anc, some bs, some own => showResOuts (planMerge rs anc bs own)
+    | _, _, _, _ => "bad-request"
+  | ["stageplan", s, o, bo, rs, own, g] =>
+    match Parse.nat? s, parseNats o, parseNats bo, parseReducers rs, parseOuts own, parseGraph g with
+    | some s, some o, some bo, some rs, some own, some g =>
+      if !graphOk g then "bad-graph"
+      else if !isLinExt g.R s o then "not-linext"
+      else if !(bo.all (fun b => (g.R s).contains b)) then "bad-branches"
+      else showResOuts (planMerge rs (mergeOrder g.O o) (bo.map g.O) own)
+    | _, _, _, _, _, _ => "bad-request"
+  | ["loop", var, rk, own, iters] =>
+    match (if var == "legacy" then some Variant.legacy else if var == "fixed" then some Variant.fixed else none),
+          parseKeys rk, parseOuts own, Parse.all? parseOuts (iters.splitOn "|") with
+    | some var, some rk, some own, some iters =>
+      "|".intercalate ((loopSeen var rk { ctx := own } iters).map showOuts)
+    | _, _, _, _ => "bad-request"
+  | _ => "bad-request"
 
 end Stab.Merge
